@@ -19,6 +19,8 @@ for p in sorted(glob.glob('/verif/seeded/*/meta.json')):
     else:
         verdict = 'not run'
         by = ''
+    if m.get('history') and verdict == 'caught':
+        verdict = 'caught (after strengthening)'
     rows.append((m['id'], ', '.join(os.path.basename(f) for f in m['files_changed']), m['needs_to_manifest'][:110], verdict, by))
 print('| change | file(s) | needs | result | by |')
 print('|---|---|---|---|---|')
